@@ -4,8 +4,9 @@ from .rules import f5_trace, f6_kinds, f7_roots, f4_gc, f4_chan, f4_sched, f4_vm
 
 
 def D(rec):
-    F = facts.load("default")
-    rec.configs.add("default")
+    cfg = getattr(rec, "force_cfg", None) or "default"
+    F = facts.load(cfg)
+    rec.configs.add(cfg)
     return F
 
 
@@ -338,6 +339,33 @@ def _with_debug_parity(pid, fn):
 CHECKS = {"C01": c01, "C12": c12, "C02": c02, "C03": c03, "C04": c04, "C13": c13, "C05": c05, "C06": c06, "C10": c10, "C11": c11, "C14": c14, "C07": c07, "C08": c08, "C09": c09, "C15": c15, "C16": c16, "C17": c17, "C18": c18, "C19": c19, "C20": c20}
 
 CHECKS = {k: (_with_debug_parity(k, v) if k in f10_parity.DBG_SCOPE else v) for k, v in CHECKS.items()}
+
+
+def _all_configs(pid, fn):
+    """thorough tier: after the default build, the property's MIR rules are evaluated again on the two other
+    configurations the project builds (nan_boxing: the other Value representation; gc_stress: the other
+    collection schedule, with cfg'd code paths). Code that exists only under a feature is otherwise invisible."""
+    def run(rec, tier):
+        fn(rec, tier)
+        if tier != "thorough":
+            return
+        for cfg in ("nan_boxing", "gc_stress"):
+            try:
+                facts.load(cfg)
+            except facts.ExtractError as e:
+                rec.rule("F10.cfg", "every feature configuration the project's CI builds type-checks")
+                rec.inst("F10.cfg", "cargo check --features laythe_vm/%s" % cfg, ok=False)
+                rec.finding("F10.cfg", "F10.cfg/%s-build" % cfg, "configuration %s does not type-check: %s" % (cfg, str(e)[-300:]))
+                continue
+            rec.force_cfg = cfg
+            try:
+                fn(rec, "quick")
+            finally:
+                rec.force_cfg = None
+    return run
+
+
+CHECKS = {k: _all_configs(k, v) for k, v in CHECKS.items()}
 
 META = {
     "C01": {
